@@ -377,10 +377,22 @@ def lookahead_obligations(mir):
                     "why": "always rejected: %s" % missing if missing else ""})
         out.append({"obligation": "next_clause_applicable, %s: every other kind of cell is rejected" % instr,
                     "ok": res.get("other") == {"reject"}, "why": str(sorted(res.get("other", [])))})
+    # GetConstant: a bound argument is rejected only because unifying it with the literal failed
+    entry = util.arm_entry(body, "GetConstant")
+    paths = core.Executor(body, stop_blocks=tuple(heads), max_depth=400, max_paths=4000).run(entry)
+    rej, rej_without = 0, 0
+    for p in paths:
+        if p.end == "return" and p.env.get("_0") == ("c", 0):
+            rej += 1
+            if not any(e[0] == "call" and e[1].endswith("::unify") for e in p.events):
+                rej_without += 1
+    out.append({"obligation": "next_clause_applicable, GetConstant: a clause is skipped only after unifying the "
+                "argument with the literal failed (%d rejecting paths)" % rej,
+                "ok": rej > 0 and rej_without == 0, "why": "%d reject without unifying" % rej_without})
     return out
 
 
-def run(thorough=False):
+def run(thorough=False, prop="C06"):
     try:
         mir, secs, cached = util.get()
         rt_got, rt_spec = routing(mir)
@@ -502,9 +514,9 @@ def run(thorough=False):
         res["distinct_nontrivial"] += 1
     elif a_rt == "sat" and rt_diffs:
         res["mirsmt_routing_differences"] = rt_diffs
-        rp = prolog.replay_index_routing(rt_diffs)
+        rp = prolog.replay_index_routing(rt_diffs, prop)
         if rp["reproduced"]:
-            log("VIOLATION property=C06 replay=%s" % rp["path"])
+            log("VIOLATION property=%s replay=%s" % (prop, rp["path"]))
             exit_code = EXIT_VIOLATION
         else:
             log("  mirsmt C06: routing difference %s did not reproduce (%s) -> inconclusive" % (
@@ -515,9 +527,9 @@ def run(thorough=False):
     if a_fit["answer"] == "unsat":
         res["distinct_nontrivial"] += 1
     elif a_fit["answer"] == "sat":
-        rp = prolog.replay_index_keys("fit", a_fit["model"])
+        rp = prolog.replay_index_keys("fit", a_fit["model"], prop)
         if rp["reproduced"]:
-            log("VIOLATION property=C06 replay=%s" % rp["path"])
+            log("VIOLATION property=%s replay=%s" % (prop, rp["path"]))
             exit_code = EXIT_VIOLATION
         elif exit_code == EXIT_OK:
             log("  mirsmt C06: model did not reproduce on the binary (%s) -> inconclusive" %
@@ -529,15 +541,15 @@ def run(thorough=False):
         res["distinct_nontrivial"] += 1
     elif a_big["answer"] == "sat":
         # pointer-keyed bignum / rational constants: the structural known finding F5b
-        kf = [e for e in known_for("C06") if e.get("match", {}).get("engine") == "mirsmt" and
+        kf = [e for e in known_for(prop) if e.get("match", {}).get("engine") == "mirsmt" and
               e["match"].get("query") == "nonfitting"]
-        rp = prolog.replay_index_keys("big", a_big["model"])
+        rp = prolog.replay_index_keys("big", a_big["model"], prop)
         if kf and rp["reproduced"]:
             res["distinct_nontrivial"] += 1
             res["known_findings_hit"] = [kf[0]["id"]]
-            log("KNOWN-FINDING: property=C06 %s" % kf[0]["what"])
+            log("KNOWN-FINDING: property=%s %s" % (prop, kf[0]["what"]))
         elif rp["reproduced"]:
-            log("VIOLATION property=C06 replay=%s" % rp["path"])
+            log("VIOLATION property=%s replay=%s" % (prop, rp["path"]))
             exit_code = EXIT_VIOLATION
         elif exit_code == EXIT_OK:
             log("  mirsmt C06: non-fitting model did not reproduce (%s) -> inconclusive" % rp.get("why"))
@@ -555,9 +567,9 @@ def run(thorough=False):
     log("  mirsmt C06: compute_indices layout: %d pointer obligations, %d violated" % (len(lay_m), len(lay_bad)))
     if lay_bad:
         res["mirsmt_layout_violations"] = lay_bad
-        rp = prolog.replay_index_routing(lay_bad)
+        rp = prolog.replay_index_routing(lay_bad, prop)
         if rp["reproduced"]:
-            log("VIOLATION property=C06 replay=%s" % rp["path"])
+            log("VIOLATION property=%s replay=%s" % (prop, rp["path"]))
             exit_code = EXIT_VIOLATION
         elif exit_code == EXIT_OK:
             log("  mirsmt C06: layout difference did not reproduce (%s) -> inconclusive" % rp.get("why"))
@@ -570,9 +582,9 @@ def run(thorough=False):
     log("  mirsmt C06: clause look-ahead: %d obligations, %d violated" % (len(look), len(look_bad)))
     if look_bad:
         res["mirsmt_lookahead_violations"] = look_bad
-        rp = prolog.replay_lookahead(look_bad)
+        rp = prolog.replay_lookahead(look_bad, prop)
         if rp["reproduced"]:
-            log("VIOLATION property=C06 replay=%s" % rp["path"])
+            log("VIOLATION property=%s replay=%s" % (prop, rp["path"]))
             exit_code = EXIT_VIOLATION
         elif exit_code == EXIT_OK:
             log("  mirsmt C06: look-ahead difference did not reproduce (%s) -> inconclusive" % rp.get("why"))
